@@ -106,6 +106,13 @@ impl<'a> Gen<'a> {
         let al = !(size.bytes() - 1);
         for _ in 0..64 {
             let kind = if self.frames.is_empty() { 99 } else { self.rng.below(100) };
+            // (rarely an identity frame whose address is no canonical virtual address)
+            if identity && self.rng.chance(3) {
+                let f = ((1u64 << 47) + self.rng.below((1 << 52) - (1 << 47))) & al;
+                if !self.zones.is_table_zone(f) {
+                    return f;
+                }
+            }
             let limit_bits = if identity { 47 } else { 52 };
             let f = if kind < 30 {
                 let (f, s) = *self.rng.pick(&self.frames.clone());
